@@ -565,7 +565,12 @@ func (v *Verifier) checkFrame(st *State, env *CEnv, pos token.Pos) {
 			if a.Kind == "un" && a.Op == "*" {
 				a = a.X
 			}
-			if a.Kind == "sel" {
+			isContents := false
+			if a.Kind == "call" && a.X.Kind == "ident" && a.X.Name == "contents" && len(a.Args) == 1 {
+				a = a.Args[0]
+				isContents = true
+			}
+			if a.Kind == "sel" && !isContents {
 				base := e.tr(a.X)
 				if stT, isPtr := derefType(base.Ty); isPtr || true {
 					if stt, ok := stT.Underlying().(*types.Struct); ok {
